@@ -36,6 +36,7 @@ def explicit_job(rep):
 
 def main_for(prop, tier, replay=None):
     chk = Check(prop, tier)
+    n_graph_cases = 0
     build_harness(["sierra_tool"])
     if prop == "C04" and not replay:
         # design level: the wallet discipline implies GasCovers / Bounded for every small CFG, and termination
@@ -46,6 +47,8 @@ def main_for(prop, tier, replay=None):
                 raise ToolError(f"GasDesign/{cfg}: {r.violated} {r.errors[:2]} (see {r.out_path})")
             chk.add_tlc(r)
             os.remove(r.out_path)
+        import graphalgos
+        n_graph_cases = graphalgos.stage(chk, tier)
     if replay:
         rep = json.load(open(replay))["replay"]
         jobs = [explicit_job(rep)]
@@ -126,6 +129,6 @@ def main_for(prop, tier, replay=None):
         "programs_accepted": n_prog, "accepted_mutants_run": n_mut_acc, "runs": stats["runs"], "events": stats["events"],
         "result_kinds": kinds, "distinct_nontrivial": nontrivial,
         "rule": "distinct (program, function, args, gas) runs whose trace has >= 5 statement instances and reached Finish",
-        "diagnostics": diag, "static_range_mismatches": n_static,
+        "diagnostics": diag, "static_range_mismatches": n_static, "feedback_set_cases_replayed": n_graph_cases,
         "exhaustive": False,
     })
